@@ -634,6 +634,10 @@ func (c *handlerCtx) handleReply() {
 	if c.callCmd.stat.OK() {
 		stat := c.input.Status()
 		if stat.OK() {
+			// the reply could not be read or decoded: recorded by the read loop
+			stat = c.stat
+		}
+		if stat.OK() {
 			stat = c.pluginContainer.postReadReplyBody(c)
 		}
 		c.callCmd.stat = stat
